@@ -73,6 +73,20 @@ def check(ctx, rep):
             and norm(thr[0].test.values[1]) == 'not is_single' and norm(thr[0].body[0]) == 'is_double = True'
     rep.ob('literal.double-threshold', 'more significant digits than Single.digits selects double unless ! was given', ok,
            norm(thr[0].test) if thr else 'none', ctx.where(sd))
+    # the digits discounted from the count are zeros *after the decimal point* only: zeros before it carry the
+    # magnitude of a whole number (9999999000 has ten significant digits and must become a double)
+    zinc = [a for a in own_nodes(sd) if isinstance(a, ast.AugAssign) and norm(a.target) == 'zeros' and isinstance(a.op, ast.Add)]
+    okz = len(zinc) == 1
+    factsz = set()
+    if okz:
+        for f in fl.facts(zinc[0]):
+            if f.pol:
+                factsz |= set(x.strip() for x in f.text.split(' and '))
+        okz = 'found_point' in factsz and "c == b'0'" in factsz
+    rep.ob('literal.trailing-zeros-after-point-only', 'zeros are discounted from the significant-digit count only after the decimal point', okz,
+           'zeros counted under %s: whole numbers with trailing zeros are read as (truncated) singles' % sorted(factsz), ctx.where(sd))
+    zreset = [a for a in own_nodes(sd) if isinstance(a, ast.Assign) and norm(a.targets[0]) == 'zeros' and norm(a.value) == '0']
+    rep.ob('literal.zero-run-reset', 'a non-zero digit ends the run of discounted zeros', len(zreset) >= 1, '', ctx.where(sd))
     sel = {}
     for n in own_nodes(sd):
         if isinstance(n, ast.Assign) and norm(n.targets[0]) in ('is_single', 'is_double') and not isinstance(n.targets[0], ast.Tuple):
@@ -123,6 +137,8 @@ def variants(ctx):
         return lambda tree: f(mu.find_def(tree, fname))
 
     return [
+        Va('zeros-before-point-discounted', 'break', N,
+           in_fn('str_to_decimal', lambda fn: mu.replace_expr(fn, mu.text_is("found_point and c == b'0'"), "c == b'0'")), expect='literal.trailing-zeros'),
         Va('threshold-8', 'break', N,
            in_fn('str_to_decimal', lambda fn: mu.replace_expr(fn, mu.text_is('digits - zeros > 7'), 'digits - zeros > 8')), expect='literal.double-threshold'),
         Va('single-digits-6', 'break', N,
